@@ -61,7 +61,27 @@ def gen_case(rng, kind, n=None):
     comp = FC.gen_compose(rng)
     if comp["id"] == "<create>":
         comp["id"] = "X-1-%s%s.%d" % (comp["date"], domains.COMPOSE_TYPE_SUFFIX[comp["type"]], comp["respin"] % 100)
-    return {"kind": kind, "ops": ops, "compose": comp}
+    H = {"kind": kind, "ops": ops, "compose": comp}
+    # a few more valid adds applied AFTER the reload (some re-address existing entries)
+    more = []
+    for _ in range(rng.choice([0, 1, 2, 4])):
+        if kind == "rpms":
+            op = F.gen_rpms_op(rng, pool)
+        elif kind == "modules":
+            op = F.gen_modules_op(rng)
+            if ops and rng.random() < 0.6:
+                prev = rng.choice(ops)
+                for k in ("variant", "arch", "uid"):
+                    op["args"][k] = prev["args"][k]
+                op["meta"]["uid_parts"] = prev["meta"]["uid_parts"]
+        else:
+            op = F.gen_extra_op(rng)
+            if ops and rng.random() < 0.6:
+                prev = rng.choice(ops)
+                op["args"]["variant"], op["args"]["arch"] = prev["args"]["variant"], prev["args"]["arch"]
+        more.append(op)
+    H["more_ops"] = more
+    return H
 
 
 def classes_of(H, state):
@@ -190,6 +210,33 @@ def check_case(ctx, pm, H, tmpdir):
             os.unlink(path)
         except OSError:
             pass
+    # M6: the re-read manifest keeps behaving like the model when the history continues after the reload
+    more = H.get("more_ops") or []
+    if more and re2 is not None:
+        model2 = F.MODELS[kind]()
+        setattr(model2, {"rpms": "rpms", "modules": "modules", "extra": "extra_files"}[kind], json.loads(json.dumps(expected)))
+        probs6 = []
+        for op in more:
+            model2.add(json.loads(json.dumps(op["args"])), op["meta"])
+            try:
+                F.apply_real(re2, json.loads(json.dumps(op)))
+            except Exception as e:
+                probs6.append("add after reload raised %s: %s" % (type(e).__name__, str(e)[:120]))
+                break
+        if not probs6:
+            probs6 = F.first_diff(model2.state(), F.real_state(re2, kind))
+            if not probs6:
+                try:
+                    t3 = re2.dumps()
+                    re4 = F.new_real(pm, kind)
+                    re4.loads(t3)
+                    probs6 = F.first_diff(model2.state(), F.real_state(re4, kind))
+                except Exception as e:
+                    probs6 = ["second cycle raised %s: %s" % (type(e).__name__, str(e)[:120])]
+        ctx.monitor("M6-history-continues-after-reload", fired=bool(probs6))
+        if probs6:
+            ctx.violation("M6-history-continues-after-reload", "a re-read manifest is the same mapping: further adds and a second "
+                          "write/read cycle give what the reference model gives", case, observed=probs6, expected="model mapping")
     ctx.monitor("M5-file-roundtrip", fired=bool(problems))
     if problems:
         ctx.violation("M5-file-roundtrip", "dump(path)/load(path) equals the string round trip", case,
